@@ -22,6 +22,7 @@ import (
 	"math/big"
 	"runtime"
 	"sort"
+	"strings"
 	"sync"
 	"testing"
 
@@ -143,7 +144,7 @@ func goals(thorough bool) []goal {
 // `want` smallest counters satisfying each goal. The search is split into fixed blocks that
 // are scanned in parallel; results are the smallest matching counters, so they do not depend
 // on scheduling.
-func steer(pub, prefix []byte, gs []goal, want int, maxBlocks int) (found map[string][]uint64, hashed uint64) {
+func steer(pub, prefix []byte, gs []goal, wantOf func(string) int, maxBlocks int) (found map[string][]uint64, hashed uint64) {
 	const block = 1 << 18
 	found = map[string][]uint64{}
 	workers := runtime.GOMAXPROCS(0)
@@ -169,7 +170,7 @@ func steer(pub, prefix []byte, gs []goal, want int, maxBlocks int) (found map[st
 						continue
 					}
 					for _, g := range gs {
-						if len(m[g.name]) < want && g.ok(&d) {
+						if len(m[g.name]) < wantOf(g.name) && g.ok(&d) {
 							m[g.name] = append(m[g.name], c)
 						}
 					}
@@ -186,10 +187,9 @@ func steer(pub, prefix []byte, gs []goal, want int, maxBlocks int) (found map[st
 				found[g.name] = append(found[g.name], m[g.name]...)
 			}
 			sort.Slice(found[g.name], func(i, j int) bool { return found[g.name][i] < found[g.name][j] })
-			if len(found[g.name]) > want {
+			if want := wantOf(g.name); len(found[g.name]) > want {
 				found[g.name] = found[g.name][:want]
-			}
-			if len(found[g.name]) < want {
+			} else if len(found[g.name]) < want {
 				done = false
 			}
 		}
@@ -283,10 +283,18 @@ func TestC09(t *testing.T) {
 		k := keys[ki]
 		prefix := make([]byte, 8)
 		prng.Read(prefix)
-		found, hashed := steer(k.pub, prefix, gs, wantPer, maxBlocks)
+		found, hashed := steer(k.pub, prefix, gs, func(name string) int {
+			if !r.Thorough() && (name == "neg-carry-3" || strings.HasSuffix(name, "-6-nibbles") || strings.HasSuffix(name, "-6-f")) {
+				if ki > 0 {
+					return 0 // quick tier: the ~2^25-evaluation search only for the first key
+				}
+				return 1
+			}
+			return wantPer
+		}, maxBlocks)
 		totalHashed += hashed
 		for _, g := range gs {
-			if len(found[g.name]) == 0 {
+			if len(found[g.name]) == 0 && (r.Thorough() || ki == 0 || g.name != "neg-carry-3") {
 				missing[g.name]++
 			}
 			for _, c := range found[g.name] {
